@@ -91,7 +91,7 @@ fn check_parser<R: PartialEq + std::fmt::Debug>(
 }
 
 /// Offsets (< 106) of CR LF pairs in `buf` at or behind `from`: at most three.
-fn later_line_breaks(buf: &[u8], from: usize) -> Vec<usize> {
+pub fn later_line_breaks(buf: &[u8], from: usize) -> Vec<usize> {
     let mut out = Vec::new();
     let mut i = from;
     while i + 1 < buf.len() && i < 106 && out.len() < 3 {
@@ -104,7 +104,7 @@ fn later_line_breaks(buf: &[u8], from: usize) -> Vec<usize> {
 }
 
 /// A well-formed UNKNOWN line whose CR stands at offset `cr` (13..=105).
-fn line_ending_at(cr: usize) -> Option<Vec<u8>> {
+pub fn line_ending_at(cr: usize) -> Option<Vec<u8>> {
     if !(13..=105).contains(&cr) {
         return None;
     }
